@@ -170,8 +170,9 @@ fn scale2(op: &str, x: f64, y: f64, v: Option<f64>) -> f64 {
 }
 /// operations whose integer instances are "the f64 function, converted back" (judged against the reference also for
 /// integer element types; seeded change C04i: subtract on unsigned types)
-const INT_REF2: [&str; 4] = ["add", "subtract", "multiply", "hypot"];
-const INT_REF1: [&str; 12] = ["positive", "negative", "abs", "absolute", "fabs", "square", "sqrt", "cbrt", "exp", "exp2", "floor", "ceil"];
+const INT_REF2: [&str; 6] = ["add", "subtract", "multiply", "hypot", "power", "float_power"];
+const INT_REF1: [&str; 20] = ["positive", "negative", "abs", "absolute", "fabs", "square", "sqrt", "cbrt", "exp", "exp2", "floor", "ceil",
+    "log", "log2", "log10", "log_1p", "exp_m1", "trunc", "fix", "rint"];
 fn ref_tag<N>() -> &'static str { if std::any::type_name::<N>() == "f32" { "ref32" } else { "ref" } }
 fn is_float<N>() -> bool { matches!(std::any::type_name::<N>(), "f64" | "f32") }
 /// reference for an INTEGER element type: the f64 reference converted the way the library converts (truncation,
@@ -179,7 +180,7 @@ fn is_float<N>() -> bool { matches!(std::any::type_name::<N>(), "f64" | "f32") }
 /// but different algorithm may truncate to the neighbouring value)
 fn iref<N: Numeric + Lab>(v: Option<f64>) -> String {
     match v {
-        Some(v) if v.is_finite() && v.abs() < 9e15 && (v == v.round() || (v - v.round()).abs() > 1e-9 * v.abs().max(1.0)) => N::from(v).to_lab(),
+        Some(v) if v.is_finite() && v.abs() < 9e15 && (v == v.round() || (v - v.round()).abs() > 1e-9 * v.abs().max(1.0)) => N::cast_ref(v).to_lab(),
         _ => "?".into(),
     }
 }
